@@ -143,6 +143,19 @@ def immutable(types, desc, cfg, reread=True):
     if b1[0] == "bytes" and b2[0] == "bytes":
         check(b1[1] == b2[1], "serializing a deserialized instance twice yields identical bytes")
     no_assign(back, "byte_size", 0, desc["name"] + "(deserialized).byte_size")
+    # instances are snapshots: reading further objects of the class (from other data) leaves earlier ones as they were
+    r2 = EoReader(bytearray())
+    r2.chunked_reading_mode = desc["entry"]
+    try:
+        other = cls.deserialize(r2)
+    except ValueError:
+        other = None
+    check(other is not back, "deserialize returns a fresh instance")
+    check(back.byte_size == size0, "a later deserialize leaves byte_size of an earlier instance unchanged")
+    b3 = ser_outcome(cls, back)
+    check(b3[0] == b1[0], "a later deserialize leaves an earlier instance serializing the same way")
+    if b3[0] == "bytes" and b1[0] == "bytes":
+        check(b3[1] == b1[1], "a later deserialize leaves the bytes of an earlier instance unchanged")
 
 
 def array_kinds(types, desc, cfg):
